@@ -251,6 +251,29 @@ def run(ctx):
         ctx.count("encoder_calls")
         ctx.ob("C07.c", w.qual, t is not None and strip(t) == pid, f"{name} serialises self._packet_id", func=w.qual, file=file, construct=f"{name}(...)",
                fail=f"{name} is given `{show(t) if t else None}` instead of the connection's packet counter")
+    # ... and the handshake request carries it where the data packets do: two bytes, big-endian, right behind the 6-byte header (the data
+    # packets' counter field is C05's layout obligation, imported by C01 / C06)
+    from ..seq import Field, Layouts, flatten
+    from ..affine import Lin
+    hq = ctx.fn(f"{V3}._encode_handshake_request")
+    hs = summarize(prog, hq)
+    Lh = Layouts(prog)
+    for _pc, t_, n_, _st in hs.returns:
+        if n_ is None:
+            continue
+        try:
+            lay = flatten(Lh.layout(t_))
+        except AnalysisError:
+            lay = []
+        off, hit = Lin(0), None
+        for seg in lay:
+            if isinstance(seg, Field) and strip(seg.term) == ("param", hq.params[1]):
+                hit = (off, seg)
+            off = off + seg.length() if hasattr(seg, "length") else off
+        ok_h = hit is not None and hit[1].n == Lin(2) and hit[1].order == "big"
+        ctx.count("handshake_encoder_returns")
+        ctx.ob("C07.c", hq.qual, ok_h, "the handshake request carries the counter as two big-endian bytes", func=hq.qual, file=file, node=n_,
+               fail="the handshake request does not serialise the counter as 2 big-endian bytes: after the first packet the sequence previous + 1 is broken on the wire")
     # the expiry (and the key) only change once the reply has been verified: otherwise a failed re-handshake re-arms the old session
     from .c06 import stores_after_proof
     ctx.count("stores_after_proof", stores_after_proof(ctx, "C07.d", prog))
